@@ -164,9 +164,7 @@ Definition cleanup (s : sst) (now : Z) : sst :=
   let q := zq_keep now (zq s) in set_zq s q (zq_minexp q).
 
 (** handlePacketImpl *)
-Definition recv (c : scfg) (s : sst) (now : Z) (p : spkt) : sst * sout :=
-  let due := negb (nextCleanup s =? 0) && (nextCleanup s <? now) in
-  let '(s1, o) :=
+Definition recv_core (c : scfg) (s : sst) (now : Z) (p : spkt) : sst * sout :=
     match p with
     | SPvn | SPnoversion | SPbadhdr | SPother => (s, SDrop false)
     | SPunsupported size addr =>
@@ -178,7 +176,12 @@ Definition recv (c : scfg) (s : sst) (now : Z) (p : spkt) : sst * sout :=
     | SPinitial size dcid scid tok addr intact newcid =>
         if size <? saMinInitialPacketSize then (s, SDrop false)
         else recv_initial c s dcid scid tok addr intact newcid
-    end in
+    end.
+
+(** the clean-up of expired 0-RTT queues is decided on entry and runs (deferred) after the packet *)
+Definition recv (c : scfg) (s : sst) (now : Z) (p : spkt) : sst * sout :=
+  let due := negb (nextCleanup s =? 0) && (nextCleanup s <? now) in
+  let '(s1, o) := recv_core c s now p in
   (if due then cleanup s1 now else s1, o).
 
 (** runSendQueue over everything queued (VN, INVALID_TOKEN, CONNECTION_REFUSED, Retry); an INVALID_TOKEN
